@@ -15,7 +15,10 @@ RULE = ("part 'laws': links over all orientation pairs, distinct / self / hairpi
         "(without ID, with the stored link's ID, or with an unused ID of its own; as text or as a Line object, which must stay unconnected and usable) changes nothing and raises nothing, adding a link that differs in exactly one of {segment, one "
         "orientation, specified overlap} adds exactly one dovetail, paths traversing a link forwards and as "
         "complement, arriving before or after the link, resolve to the stored link with the direction flag the "
-        "model computes. non-trivial = overlap has an I or D (complement != identity) or the link is a hairpin")
+        "model computes; part 'multi': 2-5 links (45% parallel to an earlier one, in either form, with another overlap; some "
+        "given in both forms) and 1-3 paths of 1-3 steps over them in either direction, all lines in one shuffled order: one "
+        "real dovetail per distinct edge, every path step resolved to the stored link with the model's flag, then the "
+        "complement of every stored link adds nothing. non-trivial = overlap has an I or D (complement != identity) or the link is a hairpin")
 ASSUMPTIONS = [
     "S and N operations are outside the claim (the complement folds them onto D and I)",
     "a placeholder overlap acts as a wildcard in compatibility tests (documented); a placeholder and a specified overlap are never mixed on one end pair",
@@ -212,6 +215,126 @@ def prop_graph(case):
     return {"nt": bool(ops & set("ID")) or hairpin, "hairpin": hairpin, "order": "".join(t[0] + t[-1] for t in case["order"])}
 
 
+def prop_multi(case):
+    """Several links (parallel ones with different overlaps included) and paths over them in either direction, every
+    line arriving in an arbitrary position: one dovetail per distinct edge, every path step resolved to the stored
+    link with the model's direction flag; then the complement of every stored link adds nothing."""
+    lines, vlevel = case["lines"], case.get("vlevel", 1)
+    text = "\n".join(lines)
+    recs = [G.split_line(x, "gfa1") for x in lines]
+    stored = {}
+    for rec in recs:
+        if rec.rt == "L":
+            stored.setdefault(M.link_form_key(rec.pos), rec)
+    try:
+        g = gfapy.Gfa(version="gfa1", vlevel=vlevel)
+        for x in lines:
+            g.add_line(x)
+    except GfapyError as e:
+        raise Violation("rejected", "%s: %s\n%s" % (type(e).__name__, str(e)[:300], text), "multi/" + type(e).__name__)
+    ctx = "\n" + text + "\n-- gfa --\n" + str(g)
+    probs = O.invariants(g)
+    if probs:
+        raise Violation("invariant", "\n".join(probs[:4]) + ctx)
+    dov = g.dovetails
+    if any(x.virtual for x in dov) or len(dov) != len(stored):
+        raise Violation("n-dovetails", "%d dovetails (%d virtual) for %d distinct edges%s" % (len(dov), sum(1 for x in dov if x.virtual), len(stored), ctx), "multi")
+    by_key = {}
+    for x in dov:
+        by_key[M.link_form_key(G.split_line(O.line_text(x), "gfa1").pos)] = x
+    if set(by_key) != set(stored):
+        raise Violation("stored-form", "the stored links are not the edges of the document%s" % ctx, "multi")
+    judged = 0
+    for rec in recs:
+        if rec.rt != "P":
+            continue
+        path = g.line(rec.pos[0])
+        steps = M.path_steps(rec)
+        pl = path.links
+        if len(pl) != len(steps):
+            raise Violation("path-link", "path %s has %d links for %d steps%s" % (rec.pos[0], len(pl), len(steps), ctx), "multi")
+        for st_, ol in zip(steps, pl):
+            k = M.link_form_key(st_)
+            want = by_key.get(k)
+            if want is None or ol.line is not want:
+                raise Violation("path-link", "path %s step %s does not resolve to the stored link %s but to %r%s" % (
+                    rec.pos[0], st_, stored[k].text() if k in stored else None, str(ol.line), ctx), "multi")
+            sp = stored[k].pos
+            mc = m_complement(list(st_))
+            selfcomp = tuple(mc[:4]) == tuple(st_[:4]) and G.canon_cigar(mc[4]) == G.canon_cigar(st_[4])
+            if selfcomp:
+                continue
+            direct = tuple(sp[:4]) == tuple(st_[:4]) and G.canon_cigar(sp[4]) == G.canon_cigar(st_[4])
+            judged += 1
+            if ol.orient != ("+" if direct else "-"):
+                raise Violation("path-direction", "path %s step %s over the stored link %r: flag %s, expected %s%s" % (
+                    rec.pos[0], st_, stored[k].text(), ol.orient, "+" if direct else "-", ctx), "multi")
+            if path not in want._refs.get("paths", []):
+                raise Violation("path-backref", "stored link %r does not back-reference path %s%s" % (stored[k].text(), rec.pos[0], ctx), "multi")
+    before, btxt = O.observe(g), str(g)
+    for k, rec in sorted(stored.items()):
+        c = m_complement(rec.pos)
+        try:
+            g.add_line(link_text(c))
+        except GfapyError as e:
+            raise Violation("add-complement", "adding the complement %r raised %s: %s%s" % (link_text(c), type(e).__name__, str(e)[:200], ctx), "multi/raised")
+    after = O.observe(g)
+    if after != before or str(g) != btxt:
+        raise Violation("add-complement", "adding the complements of the stored links changed the Gfa:\n%s%s" % (O.obs_diff(before, after), ctx), "multi")
+    ends = {}
+    for k in stored:
+        ends.setdefault(M.ends_key(*stored[k].pos[:4]), []).append(k)
+    parallel = any(len(v) > 1 for v in ends.values())
+    return {"nt": judged >= 2 and (parallel or any("I" in r_.pos[4] or "D" in r_.pos[4] for r_ in stored.values())), "parallel": parallel,
+            "multi_judged": min(judged, 4)}
+
+
+def build_multi(r):
+    spec = gen.chance(r, 0.8)
+    links, keys, ends = [], set(), {}
+    for _ in range(r.randint(2, 5)):
+        if links and spec and gen.chance(r, 0.45):
+            # a parallel link: the same oriented ends as an earlier link (in either form), another overlap
+            q = gen.choice(r, links)
+            if gen.chance(r, 0.5):
+                q = m_complement(q)
+            p = list(q[:4]) + [gen.gen_cigar(r, "MIDP=XH", maxops=3)]
+        else:
+            p = gen_link(r)
+            p[4] = gen.gen_cigar(r, "MIDP=XH", maxops=3) if spec else "*"
+        k, ek = M.link_form_key(p), M.ends_key(*p[:4])
+        if k in keys or (not spec and ek in ends):
+            continue
+        keys.add(k)
+        ends[ek] = True
+        links.append(p)
+    lines = ["S\t%s\t*\tLN:i:50" % s_ for s_ in SEGS]
+    for i, p in enumerate(links):
+        tags = [["ID", "Z", "lk%d" % i]] if gen.chance(r, 0.3) else []
+        lines.append(link_text(p, tags))
+        if gen.chance(r, 0.15):
+            lines.append(link_text(m_complement(p)))  # the same edge again, in the other form
+    forms = [p for p in links] + [m_complement(p) for p in links]
+    for j in range(r.randint(1, 3)):
+        walk = [gen.choice(r, forms)]
+        for _ in range(r.randint(0, 2)):
+            nxt = [q for q in forms if q[0] == walk[-1][2] and q[1] == walk[-1][3]]
+            if not nxt:
+                break
+            walk.append(gen.choice(r, nxt))
+        segs_ = [walk[0][0] + walk[0][1]] + [w[2] + w[3] for w in walk]
+        ovs = ",".join(w[4] for w in walk) if spec else "*"
+        lines.append("P\tp%d\t%s\t%s" % (j, ",".join(segs_), ovs))
+    r.shuffle(lines)
+    return lines
+
+
+@st.composite
+def st_multi(draw):
+    r = draw(st.randoms(use_true_random=False))
+    return {"lines": build_multi(r), "vlevel": gen.choice(r, [0, 1, 1, 2, 3])}
+
+
 def gen_link(r):
     shape = r.randrange(4)
     f = gen.choice(r, SEGS)
@@ -271,4 +394,5 @@ def st_graph(draw):
 def parts(tier):
     q = tier == "quick"
     return [Part("laws", prop_laws, strategy=st_laws(), n=1500 if q else 6000, quick_shards=2),
-            Part("graph", prop_graph, strategy=st_graph(), n=500 if q else 3000, quick_shards=2)]
+            Part("graph", prop_graph, strategy=st_graph(), n=500 if q else 3000, quick_shards=2),
+            Part("multi", prop_multi, strategy=st_multi(), n=400 if q else 2500, quick_shards=2)]
